@@ -546,3 +546,497 @@ def _nested(t, seen=None):
             seen[str(dt)] = dt
             _nested(dt, seen)
     return list(seen.values())
+
+
+# =====================================================================================================================
+# deserializers (C02, Python leg)
+# =====================================================================================================================
+DES_DECLS = ["(declare-fun funbits16 (Int) PyFloat)", "(declare-fun funbits32 (Int) PyFloat)", "(declare-fun funbits64 (Int) PyFloat)"]
+
+
+def deserializer_spec():
+    return SObj("Deserializer", {"_buf": KP.ZEB, "_bit_offset": KP.cursor(0)})
+
+
+class DecPlan:
+    """for ONE shape: the constraints on the input that select the shape (length prefixes, union tags), the specified
+    value of every field of the result as a function of the zero-extended input, and the order of the nested decodes.
+    `invalid`: path of the first array whose length prefix exceeds its capacity / union whose tag is invalid (then the
+    walk stops there: the contract is 'raises FormatError')."""
+
+    def __init__(self, lang, t, shape: dict, invalid: typing.Optional[str] = None):
+        self.lang, self.t, self.shape, self.invalid = lang, t, shape, invalid
+        self.selects: typing.List[typing.Tuple[int, int, typing.Any]] = []   # (offset, width, literal or ('gt', cap))
+        self.posts: typing.List[typing.Tuple[str, str]] = []                   # (result expression, SMT template over Z)
+        self.none_fields: typing.List[str] = []
+        self.lens: typing.List[typing.Tuple[str, int]] = []
+        self.expect: typing.List[int] = []                                      # literals read as length prefixes / tags, in order
+        self.nested: typing.List[typing.Tuple[typing.Any, dict]] = []
+        self.uses_float = False
+        self.stopped = False
+        self.off = 0
+        self._comp(t, "result", "self", top=True)
+        self.bits = self.off
+
+    def _align(self, a):
+        self.off += -self.off % a
+
+    def _val(self, off: int, k: int) -> str:
+        """bits [off, off+k) of the zero-extended input, as an integer: read from the smallest byte window that holds them
+        ({0} = input array, {1} = its length, {2} = byte position of the message start)"""
+        j, r = divmod(off, 8)
+        nb = (r + k + 7) // 8
+        z = KP.le_zx("{0}", "{1}", f"(+ {{2}} {j})" if j else "{2}", max(nb, 1))
+        return f"(mod (div {z} {2 ** r}) {2 ** k})" if r else f"(mod {z} {2 ** k})"
+
+    def _prim(self, dt, ref: str):
+        k = dt.bit_length
+        u = self._val(self.off, k)
+        if isinstance(dt, pydsdl.BooleanType):
+            self.posts.append((ref, f"(= {{r}} (= {u} 1))"))
+        elif isinstance(dt, pydsdl.SignedIntegerType):
+            self.posts.append((ref, f"(= {{r}} (ite (>= {u} {2 ** (k - 1)}) (- {u} {2 ** k}) {u}))"))
+        elif isinstance(dt, pydsdl.UnsignedIntegerType):
+            self.posts.append((ref, f"(= {{r}} {u})"))
+        elif isinstance(dt, pydsdl.FloatType):
+            self.uses_float = True
+            self.posts.append((ref, f"(= {{r}} (funbits{k} {u}))"))
+        else:
+            raise NotInSubset(str(dt))
+        self.off += k
+
+    def _array(self, dt, ref: str, path: str):
+        et = dt.element_type
+        fixed = isinstance(dt, pydsdl.FixedLengthArrayType)
+        if fixed:
+            n = dt.capacity
+        else:
+            pw = dt.length_field_type.bit_length
+            if self.invalid == path:
+                self.selects.append((self._val(self.off, pw), pw, ("gt", dt.capacity)))
+                self.stopped = True
+                return
+            n = self.shape[path]
+            self.selects.append((self._val(self.off, pw), pw, n))
+            self.expect.append(n)
+            self.off += pw
+        self.lens.append((ref, n))
+        for i in range(n):
+            if isinstance(et, pydsdl.CompositeType):
+                self._align(et.alignment_requirement)
+                self._comp(et, f"{ref}[{i}]", f"{path}[{i}]")
+                if self.stopped:
+                    return
+            else:
+                k = et.bit_length
+                u = self._val(self.off, k)
+                el = "(select {a} " + str(i) + ")"
+                if isinstance(et, pydsdl.BooleanType):
+                    self.posts.append((ref + ".arr", f"(= {el} {u})"))
+                elif isinstance(et, pydsdl.SignedIntegerType):
+                    self.posts.append((ref + ".arr", f"(= {el} (ite (>= {u} {2 ** (k - 1)}) (- {u} {2 ** k}) {u}))"))
+                else:  # unsigned integers and the raw patterns of float elements
+                    self.posts.append((ref + ".arr", f"(= {el} {u})"))
+                self.off += k
+
+    def _comp(self, ct, ref: str, path: str, top: bool = False):
+        inner = ct.inner_type
+        if isinstance(ct, pydsdl.DelimitedType) and not top:
+            raise NotInSubset("nested delimited type (fork_bytes)")
+        if not top:
+            self.nested.append((ct, rebase_shape(self.shape, path), self.off))
+        if isinstance(inner, pydsdl.UnionType):
+            tw = inner.tag_field_type.bit_length
+            if self.invalid == path + "#tag":
+                self.selects.append((self._val(self.off, tw), tw, ("gt", len(inner.fields) - 1)))
+                self.stopped = True
+                return
+            k = self.shape[path + "#tag"]
+            self.selects.append((self._val(self.off, tw), tw, k))
+            if top or True:
+                self.expect.append(k)
+            self.off += tw
+            for i, f in enumerate(inner.fields):
+                a = self.lang.filter_id(f.name, "any")
+                if i != k:
+                    self.none_fields.append(f"{ref}.{a}")
+                    continue
+                self._align(f.data_type.alignment_requirement)
+                self._field(f.data_type, f"{ref}.{a}", f"{path}.{f.name}")
+        else:
+            for f in inner.fields:
+                dt = f.data_type
+                self._align(dt.alignment_requirement)
+                if isinstance(f, pydsdl.PaddingField) or isinstance(dt, pydsdl.VoidType):
+                    self.off += dt.bit_length
+                    continue
+                self._field(dt, f"{ref}.{self.lang.filter_id(f.name, 'any')}", f"{path}.{f.name}")
+                if self.stopped:
+                    return
+        if not self.stopped:
+            self._align(8)
+
+    def _field(self, dt, ref, path):
+        if isinstance(dt, pydsdl.PrimitiveType):
+            self._prim(dt, ref)
+        elif isinstance(dt, pydsdl.ArrayType):
+            self._array(dt, ref, path)
+        elif isinstance(dt, pydsdl.CompositeType):
+            self._align(dt.alignment_requirement)
+            self._comp(dt, ref, path)
+        else:
+            raise NotInSubset(str(dt))
+
+    @property
+    def nbytes(self):
+        return (self.bits + 7) // 8
+
+
+def invalid_variants(t, shape: dict) -> typing.List[str]:
+    """paths (in layout order) at which this valid shape can be turned into an invalid input"""
+    return [k for k in shape]
+
+
+def deserialize_contract(lang, t, module_rel: str, cls_path: str, shape: dict, invalid: typing.Optional[str] = None) -> typing.Tuple[Contract, DecPlan]:
+    p = DecPlan(lang, t, shape, invalid)
+    B = "old(_des_._bit_offset) // 8"
+    base_args = "_des_._buf._buf.arr, _des_._buf._buf.n, "
+
+    def with_z(body: str) -> str:
+        return body
+
+    pre = ["_des_._bit_offset >= 0", "forall('Int', lambda i: smt('Bool', '(and (<= 0 (select {0} {1})) (<= (select {0} {1}) 255))', _des_._buf._buf.arr, i))"]
+    for v, w, lit in p.selects:
+        cond = f"(= {v} {lit})" if not isinstance(lit, tuple) else f"(> {v} {lit[1]})"
+        pre.append(f"smt('Bool', '{cond}', {base_args}_des_._bit_offset // 8)")
+    label = str(t) + shape_label(shape) + (f"!invalid@{invalid[5:] if invalid.startswith('self.') else invalid}" if invalid else "")
+    decls = list(FLOAT_DECLS) + DES_DECLS
+    if invalid:
+        c = Contract(target=f"{MOD.format(module_rel)}:{cls_path}._deserialize_", params={"_des_": deserializer_spec()}, requires=pre,
+                     raises=[epy.Raises("FormatError", "True")], ensures=[], modifies=["_des_._bit_offset"], label=label, decls=decls)
+        return c, p
+    ens = [("cursor-advances-by-the-decoded-length", f"_des_._bit_offset == old(_des_._bit_offset) + {p.bits}"),
+           ("input-buffer-not-written", "smt('Bool', '(= {0} {1})', _des_._buf._buf.arr, old(_des_._buf._buf.arr))")]
+    for ref, n in p.lens:
+        ens.append((f"{ref}-has-the-decoded-length", f"len({ref}) == {n}"))
+    for ref in p.none_fields:
+        ens.append((f"{ref}-is-not-the-selected-option", f"{ref} is None"))
+    for i, (ref, tmpl) in enumerate(p.posts):
+        if ref.endswith(".arr"):
+            body = tmpl.replace("{a}", "{3}")
+        else:
+            body = tmpl.replace("{r}", "{3}")
+        ens.append((f"{ref}#{i}-is-the-specified-value-of-the-zero-extended-input", f"smt('Bool', '{with_z(body)}', {base_args}{B}, {ref})"))
+    c = Contract(target=f"{MOD.format(module_rel)}:{cls_path}._deserialize_", params={"_des_": deserializer_spec()}, requires=pre, ensures=ens,
+                 modifies=["_des_._bit_offset"], label=label, decls=decls, result=None)
+
+    def after(it):
+        o = it.ctx.env["_des_"]
+        old = it.ctx.old_heap[o.ref]["_bit_offset"]
+        it.ctx.set_field(o, "_bit_offset", it.binop(ast.Add(), old, VInt(str(p.bits))))
+    c.after_call = after  # type: ignore
+    return c, p
+
+
+DTYPES = {"uint8": (0, 255, 8), "uint16": (0, 65535, 16), "uint32": (0, 2 ** 32 - 1, 32), "uint64": (0, 2 ** 64 - 1, 64), "int8": (-128, 127, 8), "int16": (-32768, 32767, 16),
+          "int32": (-2 ** 31, 2 ** 31 - 1, 32), "int64": (-2 ** 63, 2 ** 63 - 1, 64), "float16": (0, 65535, 16), "float32": (0, 2 ** 32 - 1, 32), "float64": (0, 2 ** 64 - 1, 64), "bool_": (0, 1, 1)}
+
+
+def new_npints(it, n: str, dtype: str, arr: typing.Optional[str] = None):
+    lo, hi, w = DTYPES[dtype]
+    from vk.epy import VData
+    return it.ctx.new_obj("NPInts", {"arr": VData(ARR, arr) if arr else it.ctx.make(SData(ARR), "ndarray", False), "n": VInt(n), "lo": VInt(epy._lit_term(lo)), "hi": VInt(str(hi)), "w": VInt(str(w))})
+
+
+def des_array_contract(name: str, r: int, n: int, w: int, dtype: str, signed: bool, aligned: bool) -> Contract:
+    """ASSUMED contracts of the NumPy-based array fetches (numpy.frombuffer / unpackbits on the zero-extended bytes): n
+    elements of w bits each from the cursor, little-endian, sign-extended for signed element types"""
+    k = n * w
+    ens = [("cursor-advances", f"self._bit_offset == old(self._bit_offset) + {k}"), ("as-many-elements-as-asked", f"result.n == {n}")] + KP.DES_FRAME
+    for i in range(n):
+        j, rr = divmod(r + i * w, 8)  # the element's own byte window
+        z = KP.le_zx("{1}", "{2}", f"(+ {{3}} {j})" if j else "{3}", max((rr + w + 7) // 8, 1))
+        u = f"(mod (div {z} {2 ** rr}) {2 ** w})" if rr else f"(mod {z} {2 ** w})"
+        v = f"(ite (>= {u} {2 ** (w - 1)}) (- {u} {2 ** w}) {u})" if signed else u
+        ens.append((f"element-{i}", f"smt('Bool', '(= (select {{0}} {i}) {v})', result.arr, self._buf._buf.arr, self._buf._buf.n, {KP.DB_OLD})"))
+    lo, hi, ww = DTYPES[dtype]
+    res = SObj("NPInts", {"arr": SData(ARR), "n": VInt(str(n)), "lo": VInt(epy._lit_term(lo)), "hi": VInt(str(hi)), "w": VInt(str(ww))})
+    params = {"self": KP.des_obj(r), "count": SInt} if dtype == "bool_" else {"self": KP.des_obj(r), "dtype": epy.SConst("dtype"), "count": SInt}
+    c = Contract(target=f"<generated nunavut_support.py>:Deserializer.{name}", params=params, requires=["self._bit_offset >= 0", KP.UINT8_INPUT], ensures=ens,
+                 modifies=["self._bit_offset"], result=res, note="assumed")
+    c.after_call = KP.advance_cursor(k)  # type: ignore
+    return c
+
+
+def des_float_contract(name: str, r: int, w: int) -> Contract:
+    """ASSUMED: fetch_*_fW returns struct.unpack of the W zero-extended bits at the cursor (a function of those bits)"""
+    nb = w // 8 + (1 if r else 0)
+    Z = KP.le_zx("{1}", "{2}", "{3}", nb)
+    c = Contract(target=f"<generated nunavut_support.py>:Deserializer.{name}", params={"self": KP.des_obj(r)}, requires=["self._bit_offset >= 0", KP.UINT8_INPUT],
+                 ensures=[("cursor-advances", f"self._bit_offset == old(self._bit_offset) + {w}"),
+                          ("unpacked-from-the-bits-at-the-cursor", f"smt('Bool', '(= {{0}} (funbits{w} (mod (div {Z} {2 ** r}) {2 ** w})))', result, self._buf._buf.arr, self._buf._buf.n, {KP.DB_OLD})")] + KP.DES_FRAME,
+                 modifies=["self._bit_offset"], result=SData("PyFloat"), note="assumed", decls=list(FLOAT_DECLS) + DES_DECLS)
+    c.after_call = KP.advance_cursor(w)  # type: ignore
+    return c
+
+
+def install_deserializer_callees(e) -> None:
+    D = "Deserializer."
+    r_of = KP._r_of
+
+    def misaligned(name: str, params) -> Contract:
+        return Contract(target=f"<generated nunavut_support.py>:Deserializer.{name}", params=params, raises=[epy.Raises("AssertionError", "True")], ensures=[])
+
+    def fam(name, build, aligned, params):
+        def sel(it, a, kw):
+            r = r_of(it, a[0])
+            if aligned and r != 0:
+                return misaligned(name, params)
+            try:
+                return build(it, r, a)
+            except OutOfSubset:
+                if it.ctx.implied("false"):  # an infeasible path (e.g. past a length check that always raises here): nothing to prove
+                    raise epy.PathEnd()
+                raise
+        e.contracts[D + name] = sel
+
+    P1 = {"self": SObj("Deserializer", {}), "bit_length": SInt}
+    P0 = {"self": SObj("Deserializer", {})}
+    fam("fetch_aligned_unsigned", lambda it, r, a: KP.fetch_unsigned(True, 0, _lit_arg(a[1], "bit_length")), True, P1)
+    fam("fetch_aligned_signed", lambda it, r, a: KP.fetch_signed(True, 0, _lit_arg(a[1], "bit_length")), True, P1)
+    fam("fetch_unaligned_unsigned", lambda it, r, a: KP.fetch_unsigned(False, r, _lit_arg(a[1], "bit_length")), False, P1)
+    fam("fetch_unaligned_signed", lambda it, r, a: KP.fetch_signed(False, r, _lit_arg(a[1], "bit_length")), False, P1)
+    fam("fetch_unaligned_bit", lambda it, r, a: KP.fetch_unaligned_bit(r), False, P0)
+    for w in (8, 16, 32, 64):
+        fam(f"fetch_aligned_u{w}", (lambda w: lambda it, r, a: KP.fetch_aligned_u(w))(w), True, P0)
+        fam(f"fetch_aligned_i{w}", (lambda w: lambda it, r, a: KP.fetch_aligned_i(w))(w), True, P0)
+    for w in (16, 32, 64):
+        fam(f"fetch_aligned_f{w}", (lambda w: lambda it, r, a: des_float_contract(f"fetch_aligned_f{w}", 0, w))(w), True, P0)
+        fam(f"fetch_unaligned_f{w}", (lambda w: lambda it, r, a: des_float_contract(f"fetch_unaligned_f{w}", r, w))(w), False, P0)
+
+    def skip(it, r, a):
+        k = _lit_arg(a[1], "skip_bits argument")
+        c = KP.skip_bits_des(r)
+        c.after_call = KP.advance_cursor(k)  # type: ignore
+        return c
+    fam("skip_bits", skip, False, P1)
+
+    def pad(it, r, a):
+        if _lit_arg(a[1], "alignment") != 8:
+            raise OutOfSubset("pad_to_alignment with an alignment other than 8")
+        return KP.pad_to_alignment_des(r)
+    fam("pad_to_alignment", pad, False, P1)
+
+    def arr(name, aligned, bits):
+        def build(it, r, a):
+            if bits:
+                n = _lit_arg(a[1], "element count")
+                return des_array_contract(name, r, n, 1, "bool_", False, aligned)
+            dt = a[1].obj[1] if isinstance(a[1], epy.VConst) and isinstance(a[1].obj, tuple) and a[1].obj[0] == "dtype" else None
+            if dt is None:
+                raise OutOfSubset("array fetch with an unknown dtype")
+            n = _lit_arg(a[2], "element count")
+            lo, hi, w = DTYPES[dt]
+            return des_array_contract(name, r, n, w, dt, lo < 0, aligned)
+        fam(name, build, aligned, {"self": SObj("Deserializer", {}), "count": SInt} if bits else {"self": SObj("Deserializer", {}), "dtype": epy.SConst("dtype"), "count": SInt})
+
+    arr("fetch_aligned_array_of_standard_bit_length_primitives", True, False)
+    arr("fetch_unaligned_array_of_standard_bit_length_primitives", False, False)
+    arr("fetch_aligned_array_of_bits", True, True)
+    arr("fetch_unaligned_array_of_bits", False, True)
+    e.attr_hooks["Deserializer.consumed_bit_length"] = lambda it, o: it.ctx.get_field(o, "_bit_offset")
+    epy.EXC_PARENTS["FormatError"] = "ValueError"
+
+
+def install_object_model(e, lang, types) -> dict:
+    """constructors of the generated classes (ASSUMED from C18's setter contracts: an integer outside the DSDL range or an
+    array longer than its capacity raises ValueError, otherwise the value is stored), NumPy array factories, and the module
+    tree through which the generated code names other generated classes"""
+    from vk.epy import PyRaise, VBool, VList, VObj, VConst
+    from vk.smt import Or, app
+    tree: dict = {}
+    by_cls = {}
+    from contracts import py_leg as _PL
+    for t in types:
+        if getattr(t, "has_parent_service", False):
+            cls = _PL.mod_cls(lang, t)[1]  # "Svc_1_0.Request"
+            svc, half = cls.split(".")
+            by_cls[cls] = t
+            tree.setdefault(svc, {})[half] = ("class", cls, {})
+        else:
+            cls = lang.filter_short_reference_name(t)
+            by_cls[cls] = t
+            node = tree
+            for part in [lang.filter_id(p, "any") for p in t.full_namespace.split(".")]:
+                node = node.setdefault(part, {})
+            node[cls] = ("class", cls, {})
+
+        def ctor(it, *args, _t=t, _cls=cls, **kw):
+            inner = _t.inner_type
+            fields = {}
+            for f in (inner.fields if isinstance(inner, pydsdl.UnionType) else inner.fields_except_padding):
+                a = lang.filter_id(f.name, "any")
+                if a not in kw:
+                    if isinstance(inner, pydsdl.UnionType):
+                        fields[a] = epy.NONE
+                        continue
+                    raise OutOfSubset(f"{_cls}() without {a}")
+                v = kw[a]
+                dt = f.data_type
+                if isinstance(dt, pydsdl.IntegerType) and isinstance(v, VInt):
+                    lo, hi = int(dt.inclusive_value_range.min), int(dt.inclusive_value_range.max)
+                    if it.ctx.branch(VBool(Or(app("<", v.t, epy._lit_term(lo)), app(">", v.t, str(hi)))), f"{_cls}.{a}-out-of-range"):
+                        raise PyRaise("ValueError")
+                if isinstance(dt, pydsdl.ArrayType):
+                    n = len(v.items) if isinstance(v, VList) else _int_lit(it.ctx.get_field(v, "n").t)
+                    if n is None or (n > dt.capacity or (isinstance(dt, pydsdl.FixedLengthArrayType) and n != dt.capacity)):
+                        raise PyRaise("ValueError")
+                fields[a] = v
+            return it.ctx.new_obj(_cls, fields)
+        e.intrinsics[f"{cls}.__new__"] = ctor
+
+    def wrap(d):
+        return VConst({k: (wrap(v) if isinstance(v, dict) else VConst(v)) for k, v in d.items()})
+
+    def np_empty(it, n, dtype=None):
+        if isinstance(n, VInt) and _int_lit(n.t) is None and it.ctx.implied("false"):
+            raise epy.PathEnd()
+        k = _lit_arg(n, "array length")
+        dt = dtype.obj[1] if isinstance(dtype, VConst) and isinstance(dtype.obj, tuple) and dtype.obj[0] == "dtype" else None
+        if dt == "object_":
+            return VList([epy.NONE for _ in range(k)])
+        if dt not in DTYPES:
+            raise OutOfSubset("numpy.empty with an unknown dtype")
+        return new_npints(it, str(k), dt)
+
+    npmod = {nm: VConst(("dtype", nm)) for nm in list(DTYPES) + ["object_"]}
+    npmod["empty"] = VConst(np_empty)
+    npmod["isfinite"] = VConst(lambda it, x: VBool(f"(isfinite {x.t})") if getattr(x, "kind", "") == "PyFloat" else VBool("true"))
+
+    def np_store(it, o, k, v):
+        ctx = it.ctx
+        n = ctx.get_field(o, "n").t
+        if ctx.branch(VBool(Or(app("<", k.t, "0"), app(">=", k.t, n))), "array-index-out-of-range"):
+            raise PyRaise("IndexError")
+        if isinstance(v, VBool):
+            v = VInt(epy.Ite(v.t, "1", "0"))
+        if not isinstance(v, VInt):
+            raise OutOfSubset("array element store")
+        if ctx.branch(VBool(Or(app("<", v.t, ctx.get_field(o, "lo").t), app(">", v.t, ctx.get_field(o, "hi").t))), "element-outside-the-numpy-type"):
+            raise PyRaise("OverflowError")
+        from vk.epy import VData
+        ctx.set_field(o, "arr", VData(ARR, app("store", ctx.get_field(o, "arr").t, k.t, v.t)))
+        return None
+    e.store_subscript_hooks["NPInts"] = np_store
+
+    def list_store(it, o, k, v):
+        i = _lit_arg(k, "list index")
+        items = list(o.items)
+        if not 0 <= i < len(items):
+            raise PyRaise("IndexError")
+        items[i] = v
+        return VList(items)
+    e.store_subscript_hooks["List"] = list_store
+    bindings = {k: wrap(v) if isinstance(v, dict) else VConst(v) for k, v in tree.items()}
+    bindings["_np_"] = VConst(npmod)
+    for cls in by_cls:
+        if "." not in cls:
+            bindings.setdefault(cls, VConst(("class", cls, {})))
+    return bindings
+
+
+def verify_des_shape(lang, t, shape, invalid, text, module_rel, cls_path, src_root, all_types):
+    import re as _re
+    c, p = deserialize_contract(lang, t, module_rel, cls_path, shape, invalid)
+    fn = epy.find_function_in_text(text, f"{cls_path}._deserialize_", module_rel)
+    c.loops = {i: Loop(unroll=True) for i in range(len(epy.loops_in(fn)))}
+    e = epy.Engine(pathlib.Path(src_root))
+    bytestheory.install(e)
+    KP.byte_offset_attr(e)
+    KP.zeb_bit_length_attr(e)
+    np_ints_theory(e)
+    float_theory(e)
+    e.ghost_classes = set()
+    install_deserializer_callees(e)
+    binds = install_object_model(e, lang, all_types)
+    # nested composites are decoded in layout order: the k-th nested _deserialize_ call gets the contract of the k-th
+    # nested object of this shape
+    order = list(p.nested)
+    for dep in _nested(t):
+        dcls = lang.filter_short_reference_name(dep)
+
+        def sel(it, a, kw, dcls=dcls):
+            m = epy._LIN.fullmatch(it.ctx.get_field(a[0], "_bit_offset").t.strip())
+            if not m:
+                raise OutOfSubset("cursor is not of the form 8*B + k at a nested decode")
+            at = int(m.group(3))
+            hit = [(ct, sh) for ct, sh, off in order if off == at and lang.filter_short_reference_name(ct) == dcls]
+            if not hit:
+                if it.ctx.implied("false"):
+                    raise epy.PathEnd()
+                raise OutOfSubset(f"nested decode of {dcls} at bit {at}: no such nested object in this shape")
+            ct, sh = hit[0]
+            cc, _ = deserialize_contract(lang, ct, "nested", dcls, sh)
+            cc.result = TypePlan(lang, ct, sh).fields
+            return cc
+        e.contracts[f"{dcls}._deserialize_"] = sel
+    expect = list(p.expect)
+
+    def concretize(it, name, v):
+        if _re.fullmatch(r"_(len|tag)\d+_", name) and isinstance(v, VInt) and _int_lit(v.t) is None:
+            for L in sorted(set(expect)):
+                if it.ctx.implied(epy.Eq(v.t, str(L))):
+                    return VInt(str(L))
+        return v
+    e.assign_hook = concretize
+    c.bindings = dict(KP.np_binding(e), **binds)
+    c.bindings.update(c.bindings)
+    obs, info = e.verify(c, text)
+    info["assumed"] = list(e.assumed)
+    return c, obs, info
+
+
+def generate_des(args):
+    """worker: one type -> obligations of the deserializer for all its valid shapes and the invalid-input cases"""
+    from vk import render
+    idx, ns_dir, full_name, version, text, module_rel, cls_path, src_root = args
+    try:
+        lang = render.language_context("py").get_target_language()
+        all_types = _flatten(pydsdl.read_namespace(ns_dir, []))
+        types = {str(t): t for t in all_types}
+        t = types[f"{full_name}.{version[0]}.{version[1]}"]
+        shapes = shapes_of(t)
+        cases = [(sh, None) for sh in shapes]
+        seen = set()
+        for sh in shapes:  # invalid inputs: the first offending prefix/tag after a valid beginning
+            keys = list(sh)
+            for i, k in enumerate(keys):
+                pre = tuple((q, sh[q]) for q in keys[:i])
+                if (pre, k) in seen:
+                    continue
+                seen.add((pre, k))
+                cases.append((dict(pre), k))
+        all_obs, infos, skipped = [], [], []
+        target = ""
+        for sh, inv in cases:
+            try:
+                c, obs, info = verify_des_shape(lang, t, sh, inv, text, module_rel, cls_path, src_root, all_types)
+            except NotInSubset as ex:
+                skipped.append(f"{shape_label(sh)}{'!' + inv if inv else ''}: {ex}")
+                continue
+            except KeyError as ex:  # an invalid-case prefix that is not a prefix of the layout order
+                skipped.append(f"{shape_label(sh)}{'!' + inv if inv else ''}: shape key {ex}")
+                continue
+            target = c.target
+            all_obs += obs
+            infos.append(info)
+        if not infos:
+            return idx, "", [], {}, "not in the subset: " + "; ".join(skipped[:3])
+        info = {"returns": sum(i.get("returns", 0) for i in infos), "raises": sum(i.get("raises", 0) for i in infos), "trivial": sum(i.get("trivial", 0) for i in infos),
+                "shapes": len(infos), "shapes_outside_the_subset": skipped, "assumed": sorted({a for i in infos for a in i.get("assumed", [])})}
+        return idx, target, all_obs, info, None
+    except NotInSubset as ex:
+        return idx, "", [], {}, f"not in the subset: {ex}"
+    except Exception as ex:
+        import traceback
+        return idx, "", [], {}, f"{type(ex).__name__}: {ex} @ {traceback.format_exc()[-400:]}"
